@@ -64,9 +64,15 @@ CHECKS = {
    technique="independent byte-level grammar in TLA+ (spec/Wire.tla: ConsistencyDefects / FrameConsistent) evaluated by TLC on every outcome of repeated Codec.decode(silent=True) over arbitrary bytes, grammar-aware malformed frames and every single-byte substitution / deletion / insertion of a corpus of valid frames followed by valid traffic; the live reader is fed the same inputs",
    text="Totality (never raises), consumed length within the buffer, termination of repeated decoding, every returned message is a contiguous slice at the first marker with consistent BodyLength and three-digit CheckSum, and the live reader's buffer is drained behind a malformed frame.",
    design_ref="5/C10", note="Known finding KF-C10-lax-bodylength (test-pinned). Quick tier samples 12 replacement bytes per position, thorough all 255 for the main frame. " + COMMON_NOTE),
+ "C01": dict(engine="GroupCodec",
+   technique="TLA+ model of message tree <-> token list (spec/GroupCodec.tla: Flatten, the decoder's group-context algorithm as a step machine, WellFormedTree); TLC generates every well-formed tree over a small table with a reference grammar machine and checks Parse o Flatten = id (spec/GroupCodecMC.tla); trees over the LIVE repeating-group table pushed through the real Codec.encode/decode and judged by TLC (spec/GroupCodecEval.tla) including an independent byte tokeniser (spec/Wire.tla)",
+   text="Every group of the working tree's 29-group table as outermost group with 1-3 items, item shapes (delimiter only, all members, delimiter + each optional member, every second member), nested groups to the depth the table allows, plain fields before/after, two groups side by side, standard/custom/SequenceReset types, allocate / raw / PossDup / SequenceReset numbering modes, adversarial values (framing look-alikes such as '8=FIX.', '10=000', '9=12', '=', latin-1). TLC decides well-formedness of each tree, whether the decoder algorithm inverts Flatten for the live table, and compares the real decode result, header, consumed length, raw bytes and the independently tokenised bytes.",
+   design_ref="5/C01", note="Values are drawn from a pool (not exhaustive text); empty values and values with SOH are outside the property. " + COMMON_NOTE),
 }
 
 ENGINES = [
+ dict(name="GroupCodec", path="spec/GroupCodec.tla spec/GroupCodecMC.tla spec/GroupCodecEval.tla harness/props/c01.py",
+      serves_properties=["C01"], kind_free_text="TLA+ model of the group-context decoding algorithm + TLC tree generation + real codec round trips judged by TLC"),
  dict(name="Wire", path="spec/Wire.tla spec/WireEval.tla spec/Reassembly.tla harness/wirecheck.py harness/props/c02.py harness/props/c03.py harness/props/c10.py",
       serves_properties=["C02", "C03", "C10"], kind_free_text="independent byte-level FIX grammar in TLA+ evaluated by TLC on real encoder/decoder/reader observations; TLA+ reader-loop model"),
  dict(name="SendConc", path="spec/SendConc.tla spec/SendConcProps.tla spec/SendConcEval.tla harness/conc.py harness/props/c14.py",
